@@ -310,9 +310,13 @@ def gen_wide(n):
 
 
 def gen_helpers(W):
-  ws = (1, 2, 3)
+  ws = (1, 2, 3) if W <= 6 else (1, 2, 3, 4)
   for k in (1, 2, 3):
     for widths in itertools.product(ws, repeat=k):
+      for vals in itertools.product(*[range(1 << w) for w in widths]):
+        yield ("helper", "concat", list(zip(widths, vals)))
+  if W > 6:      # four operands over the small widths
+    for widths in itertools.product((1, 2, 3), repeat=4):
       for vals in itertools.product(*[range(1 << w) for w in widths]):
         yield ("helper", "concat", list(zip(widths, vals)))
   for n in range(1, W + 1):
@@ -320,7 +324,7 @@ def gen_helpers(W):
       for x in range(1 << n):
         for k in ("zext", "sext", "trunc"):
           for tf in ("int", "type"): yield ("helper", k, n, m, x, tf)
-  for n in range(1, 9):
+  for n in range(1, 9 if W <= 6 else 13):
     for x in range(1 << n): yield ("helper", "reduce", n, x)
 
 
@@ -328,11 +332,16 @@ WIDE = (8, 31, 32, 33, 64, 65, 512, 1023)
 
 
 def shards(tier):
-  W = 5 if tier == "quick" else 7
-  S = [("slices", n) for n in range(1, W + 1)] + [("index", n) for n in range(1, W + 1)]
-  S += [("wide", n) for n in WIDE] + [("helpers", 6)]
-  top = 1 << (17 if tier == "quick" else 20)
-  step = top // 16
+  if tier == "quick":
+    S = [("slices", n) for n in range(1, 7)] + [("slices", 7, c, 4) for c in range(4)] + [("index", n) for n in range(1, 8)]
+    S += [("wide", n) for n in WIDE] + [("helpers", 6)]
+    top, nsh = 1 << 17, 16
+  else:
+    S = [("slices", n) for n in range(1, 8)] + [("slices", n, c, 16) for n in range(8, 12) for c in range(16)] + [("slices", n, c, 64) for n in (12, 13) for c in range(64)]
+    S += [("index", n) for n in range(1, 13)]
+    S += [("wide", n) for n in range(8, 1024)] + [("helpers", 9)]
+    top, nsh = 1 << 24, 64
+  step = top // nsh
   S += [("clog2", lo, min(lo + step, top + 1)) for lo in range(1, top + 1, step)]
   S += [("clog2pow", lo, lo + 100) for lo in range(0, 1100, 100)]
   return S
@@ -340,7 +349,10 @@ def shards(tier):
 
 def gen(shard):
   k = shard[0]
-  if k == "slices": return gen_slices(shard[1], list(range(1 << shard[1])))
+  if k == "slices":
+    vals = list(range(1 << shard[1]))
+    if len(shard) == 4: vals = vals[shard[2]::shard[3]]
+    return gen_slices(shard[1], vals)
   if k == "index": return gen_index(shard[1], list(range(1 << shard[1])))
   if k == "wide": return gen_wide(shard[1])
   if k == "helpers": return gen_helpers(shard[1])
@@ -393,6 +405,6 @@ def finish(acc, tier):
          "the selection is a proper part of the word, a bound is invalid/explicit, a step is present, widths differ "
          "(extension/truncation), >=2 concat operands, or any clog2/reduce argument",
     exhaustive=True,
-    bounds=dict(full_widths=5 if tier == "quick" else 7, bound_values="None,-2..n+2 as int and Bits",
-                wide_widths=list(WIDE), clog2_range=f"1..2^{17 if tier == 'quick' else 20} and 2^k-1,2^k,2^k+1 for k<1100"),
+    bounds=dict(full_widths=7 if tier == "quick" else 13, bound_values="None,-2..n+2 as int and Bits",
+                wide_widths=list(WIDE) if tier == "quick" else "every width 8..1023", clog2_range=f"1..2^{17 if tier == 'quick' else 24} and 2^k-1,2^k,2^k+1 for k<1100"),
   )
